@@ -1,6 +1,7 @@
 """Registry: which contracts / ground checks / bounded stand-ins decide each property."""
 
 PROPS = {}
+NOT_YET = {}
 
 PROPS["C05"] = {
     "level": "proof",
@@ -92,3 +93,31 @@ PROPS["C06"] = {
     "assumptions": ["which version a magic belongs to: CPython's registry for final releases (C08 proves xdis agrees with it); PyPy corpus magics: the header layout of the CPython version they implement (no PyPy in the sandbox)",
                     "files shorter than 50 bytes are rejected by load_module before this function (precondition len >= 50)"],
 }
+
+
+# ---------------------------------------------------------------------------------------------
+# level texts / notes (MANIFEST)
+_T = {
+ "C02": ("For every opcode table (39 tables, 1.0-3.13 + PyPy) the three operand unpackers are proved equal, for all code byte strings, to CPython's _unpack_opargs of that version family (pointwise: offset, opcode, folded operand incl. EXTENDED_ARG chains; 3.11+ under the stated well-formedness of inline caches); the per-offset decoder's Instruction fields are proved against the same spec.",
+         "pyvc's encoding of the Python subset; spec functions validated against the 9 installed CPythons only for 2.7, 3.6-3.13 (other tables: format documentation, relative to C09); the stream driver get_instructions_bytes itself is not yet under contract (its callee, the per-offset decoder, is)."),
+ "C03": ("The per-offset decoder get_logical_instruction_at_offset is proved, per opcode table and for all code bytes / operands / table contents, to resolve argval as CPython's dis does for constants, names (incl. 3.11+ LOAD_GLOBAL/LOAD_ATTR/LOAD_SUPER_ATTR shifts), locals/free variables (incl. 3.11+ localsplus and 3.13 paired operands), compare operators (3.12/3.13 shifts) and jump targets.",
+         "co_varnames / cell+free tables bounded to 2 and 1 symbolic names in the proof (constants, names unbounded); localsplus is xdis's reconstruction from (varnames, cellvars+freevars); IndexError on out-of-range table indices is allowed; known finding: cmp_op spelling."),
+ "C04": ("All three label finders are proved, per opcode table and for all code bytes, to return exactly the set of jump targets CPython's dis.findlabels computes (relative/absolute, word scaling from 3.10, backward jumps from 3.11, inline-cache skips in 3.12/3.13); the decoder's jump argval and is_jump_target are proved against the same spec.",
+         "lists abstracted to their element sets (only append/membership are used); exception-handler targets added to labels by the decoder are checked only when exception_entries is None in the proof (bounded differential otherwise)."),
+ "C05": ("offset2line (binary search) and the co_lnotab branch of findlinestarts are proved for all inputs against CPython's dis.findlinestarts semantics of each version family (unsigned/signed deltas, 3.8 end-of-code cut).",
+         "3.10 co_lines / 3.11+ location-table walkers are covered by the bounded differential only so far (see evidence bounded_checks)."),
+ "C06": ("load_module_from_file_object is proved, for the magic of every final CPython release and the PyPy magics of the corpus and for all other header bytes, to return the header fields of that version's .pyc layout and to hand the stream to the code reader positioned right after the header.",
+         "the code readers (load_code / marshal.loads / marsh.load) are external with an assumed contract whose precondition (stream position) is the proof obligation; files < 50 bytes rejected earlier."),
+ "C08": ("Finite and exhaustive: int2magic/magic2int inverse on all 65536 values, every CPython registry row maps to its release, every accepted magic resolves to a version and an opcode table, release names map to the magic CPython's registry gives.",
+         "registry = magic history comment of importlib/_bootstrap_external.py (3.13.0) + MAGIC_NUMBER of the installed interpreters."),
+ "C09": ("Finite and exhaustive: data-structure invariants of all 39 opcode tables and equality with the opcode module of the 9 installed CPythons (opmap, HAVE_ARGUMENT, EXTENDED_ARG, seven category sets, hasarg).",
+         "no reference for 1.x-2.6, 3.0-3.5 and PyPy tables: invariants only."),
+ "C15": ("xstack_effect is proved equal to CPython's dis.stack_effect for every opcode of the 3.6-3.13 tables and all operands 0 <= oparg < 2**30.",
+         "closed forms of CPython's C function selected from a template family by agreement with the interpreters on sampled operands; versions without an interpreter are not covered."),
+ "C17": ("_parse_varint and parse_exception_table are proved for all byte strings against the exception-table format (big-endian 6-bit varints, 4 per entry), including termination and StopIteration exactly on truncated input.",
+         "location-table (co_positions/co_lines) walkers: bounded differential only so far."),
+}
+for _k, (_a, _b) in _T.items():
+    if _k in PROPS:
+        PROPS[_k]["level_text"] = _a
+        PROPS[_k]["level_note"] = _b
